@@ -112,8 +112,8 @@ theorem handleSm_EQ (c : Conn) (st : XTree) : EQ (handleSm c st) := by
   refine handleSm_cases EQ c st ?_ ?_ ?_ ?_
   · intro s' h _; exact .inl h
   · intro _ _ s' _; exact EQ_resend _
-  · intro _ _ _ _; exact EQ_resend _
-  · intro s' hs hb wr _
+  · intro _ _ _ _ _; exact EQ_resend _
+  · intro s' hs _ hb wr _
     exact .inl (Dis_hsmTail (c := { c with sm := s' }) hs.enabled)
 
 /-! ### B -/
@@ -397,10 +397,10 @@ theorem B_handleSm {st} (h : B c) (hnd : NDisc c) : B (handleSm c st) := by
     refine ⟨fun hd => absurd hd hnd, fun _ hp => ?_, fun hn => ?_⟩
     · rw [hk.queue, hk.sentNr]; exact h.cg he hp
     · rw [hk.queue]; exact h.hs hn
-  · intro ours v _ _
+  · intro ours v _ _ _
     apply B_negotiationSuccess
     exact B_resend (c := resumedC1 c v) (fun hd => absurd hd hnd) (fun hn => (h.hs hn).2)
-  · intro s' hk hb wr _
+  · intro s' hk _ hb wr _
     apply B_hsmTail
     refine ⟨fun _ => hk.enabled, fun he => (by rw [hk.enabled] at he; cases he), fun hn => ⟨?_, (h.hs hn).2⟩⟩
     have := hk.queue
